@@ -375,6 +375,17 @@ def check_negative(ctx: Ctx, inp) -> None:
                         valid = any(c01._raw_valid(body_def["schema"], cand, dialect, root) for cand in coercion.canonical_wire_readings(case.body))
                     else:
                         valid = c01._raw_valid(body_def["schema"], case.body, dialect, root)
+                    if valid and dialect == "3.1" and not form:
+                        # OpenAPI 3.0 says that `required` binds a readOnly property in responses only; 3.1 leaves the keyword to
+                        # JSON Schema, where it is an annotation: a body that is only valid because a required readOnly property
+                        # is absent has no single verdict there
+                        try:
+                            strict = orc.is_valid(body_def["schema"], case.body, dialect=dialect, root=root, mode="response")
+                        except Exception:  # noqa: BLE001
+                            strict = True
+                        if not strict:
+                            ctx.inconclusive_case("3.1: valid only because a required readOnly property is absent")
+                            continue
                     if valid:
                         ctx.disagree(_valid_negative_signature("body", body_def["schema"], case.body, plan), f"body {case.body!r} ({case.media_type}) is labelled negative but conforms to its schema", input=inp, case=summary)
                 elif case.body is not NOT_SET and plan["bodies"]:
